@@ -405,3 +405,7 @@ mod tests {
         handle.abort();
     }
 }
+
+#[cfg(feature = "pendulum_project_ntpd_rs_verif")]
+#[path = "/verif/hooks/ntpd/daemon_observer.rs"]
+pub mod vh_daemon_observer;
